@@ -47,7 +47,7 @@ def gen_system(rng):
             'framework': fw.tolist(), 'labels': ['A' if k % 2 == 0 else 'B' for k in range(ns)]}
 
 
-def analyse(lat, coords, sites, framework, labels):
+def analyse(lat, coords, sites, framework, labels, endpoints=None):
     """run the analyses on one representation; returns a dict of canonical results"""
     lat = np.array(lat, float)
     coords = np.array(coords, float)
@@ -87,7 +87,7 @@ def analyse(lat, coords, sites, framework, labels):
         res['free_energy'] = np.array(fe.data)
         occ = np.argwhere(res['volume'] > 0)
         if len(occ) >= 2:
-            a, b = occ[0], occ[-1]
+            a, b = (occ[0], occ[-1]) if endpoints is None else (np.array(endpoints[0]), np.array(endpoints[1]))
             try:
                 p = fe.optimal_path(start=tuple(a), stop=tuple(b), method='dijkstra')
                 res['path'] = (tuple(map(int, a)), tuple(map(int, b)), float(p.total_energy))
@@ -146,8 +146,11 @@ def compare(out, case, base, other, what, atom_perm=None, site_perm=None, roll=N
         expF = base['free_energy'] if roll is None else np.roll(base['free_energy'], roll, axis=(0, 1, 2))
         if not np.allclose(other['free_energy'], expF, rtol=1e-12):
             return fail('free-energy-rolled', None, None)
-        if 'path' in base and roll is None and 'path' in other:
-            if base['path'][:2] == other['path'][:2] and not close(base['path'][2], other['path'][2]):
+        if 'path' in base and 'path' in other:
+            shp = np.array(base['volume'].shape)
+            sh = np.zeros(3, int) if roll is None else np.array(roll)
+            want_ep = (tuple(int(x) for x in (np.array(base['path'][0]) + sh) % shp), tuple(int(x) for x in (np.array(base['path'][1]) + sh) % shp))
+            if other['path'][:2] == want_ep and not close(base['path'][2], other['path'][2]):
                 return fail('path-cost-invariant', base['path'], other['path'])
 
 
@@ -190,7 +193,11 @@ def check_case(out: Outcome, case, tag, rng):
     trans.append((f'site-permutation:{spm.tolist()}', dict(sites=sites[spm], labels=[labels[k] for k in spm], site_perm=spm.tolist())))
     n_before = len(out.failures)
     for what, kw in trans:
-        other = analyse(kw.get('lat', lat), kw.get('coords', coords), kw.get('sites', sites), kw.get('fw', fw), kw.get('labels', labels))
+        ep = None
+        if kw.get('roll') and 'path' in base:
+            shp = np.array(base['volume'].shape)
+            ep = tuple((np.array(base['path'][k]) + np.array(kw['roll'])) % shp for k in (0, 1))
+        other = analyse(kw.get('lat', lat), kw.get('coords', coords), kw.get('sites', sites), kw.get('fw', fw), kw.get('labels', labels), endpoints=ep)
         out.evaluations += 1
         if other is None:
             out.fail('property', 'transformed-system-has-no-events', {**case, 'transformation': what})
